@@ -275,6 +275,12 @@ func (d *Device) handleABSEvent(ie *input.InputEvent) {
 				d.AnalogNoteOn(identifier, analog.Note, analog.ChannelOffset, ie)
 			}
 			d.AnalogNoteOff(identifierNeg, ie)
+		case value >= 0.49:
+			// between 49 % and half travel the positive note keeps its state,
+			// but a stick that jumped here from the negative side has certainly left it
+			d.AnalogNoteOff(identifierNeg, ie)
+		case value <= -0.49:
+			d.AnalogNoteOff(identifier, ie)
 		}
 	case config.AnalogActionSim:
 		if d.checkDoubleActions() {
